@@ -244,7 +244,9 @@ func c09ReentrantModel(c *Ctx) {
 // controller sends them, plus application-side strings and ints) is built and run for the host, for GOARCH=386 and for
 // js/wasm under node — platforms whose float→integer conversions differ where the language leaves them to the
 // implementation (arm64, the usual deployment, converts like wasm: a negative float64 → uint64 saturates to 0).
-func c09OtherPlatforms(c *Ctx) {
+func c09OtherPlatforms(c *Ctx) { otherPlatforms(c, "C09") }
+
+func otherPlatforms(c *Ctx, who string) {
 	id := "other-platforms#0"
 	if c.Skip(id) {
 		return
@@ -271,13 +273,22 @@ func c09OtherPlatforms(c *Ctx) {
 		platforms = append(platforms, []string{"js/wasm", "GOOS=js", "GOARCH=wasm"})
 	}
 	hl := strings.Split(strings.TrimSpace(host), "\n")
-	// on the host: an in-range whole number written by a controller is stored as it is
+	// on the host: a whole number inside the declared range, written by a controller, is stored as it is
 	for _, l := range hl {
-		var name, in, out string
-		if n, _ := fmt.Sscanf(l, "%s %s -> %s", &name, &in, &out); n == 3 && strings.HasPrefix(in, "float64(") {
-			v := strings.TrimSuffix(strings.TrimPrefix(in, "float64("), ")")
-			if name != "NewBrightness" && !strings.Contains(v, ".") && v != "-91" && out != "int("+v+")" {
-				c.Violate("a whole number inside the range, written by a controller, is not what the application reads", id, map[string]string{"platform": "host", "line": l}, "int("+v+")", out)
+		var name, in, out, mn, mx string
+		if n, _ := fmt.Sscanf(l, "%s %s -> %s %s %s", &name, &in, &out, &mn, &mx); n == 5 && strings.HasPrefix(in, "float64(") {
+			var f float64
+			var lo, hi int64
+			if k, _ := fmt.Sscanf(in, "float64(%g)", &f); k != 1 || f != float64(int64(f)) {
+				continue
+			}
+			nlo, _ := fmt.Sscanf(mn, "min=%d", &lo)
+			nhi, _ := fmt.Sscanf(mx, "max=%d", &hi)
+			if (nlo == 1 && int64(f) < lo) || (nhi == 1 && int64(f) > hi) {
+				continue
+			}
+			if want := fmt.Sprintf("int(%d)", int64(f)); out != want {
+				c.Violate("a whole number inside the range, written by a controller, is not what the application reads", id, map[string]string{"platform": "host", "line": l}, want, out)
 			}
 		}
 	}
@@ -292,7 +303,25 @@ func c09OtherPlatforms(c *Ctx) {
 			continue
 		}
 		ol := strings.Split(strings.TrimSpace(out), "\n")
+		// on every platform: what is stored lies within the declared bounds
+		for _, l := range ol {
+			var name, in, outv, mn, mx string
+			if n, _ := fmt.Sscanf(l, "%s %s -> %s %s %s", &name, &in, &outv, &mn, &mx); n == 5 && strings.HasPrefix(outv, "int(") {
+				var v, lo, hi int64
+				fmt.Sscanf(outv, "int(%d)", &v)
+				nlo, _ := fmt.Sscanf(mn, "min=%d", &lo)
+				nhi, _ := fmt.Sscanf(mx, "max=%d", &hi)
+				if (nlo == 1 && v < lo) || (nhi == 1 && v > hi) {
+					c.Violate(who+": a value outside the declared range is stored on a platform the library is built for", id, map[string]string{"platform": p[0], "line": l}, "within "+mn+" "+mx, outv)
+					break
+				}
+			}
+		}
 		for k := range hl {
+			// values beyond the 32-bit int of the platform cannot be equal to the host's; the range rule above covers them
+			if strings.Contains(hl[k], "float64(2.147483648e+09)") || strings.Contains(hl[k], "float64(3e+09)") || strings.Contains(hl[k], "float64(4.294967301e+09)") {
+				continue
+			}
 			if k >= len(ol) || ol[k] != hl[k] {
 				got := "(missing)"
 				if k < len(ol) {
